@@ -881,7 +881,74 @@ func ruleR37(c *Ctx) {
 		return true
 	})
 	c.Check(okRelay && n >= 1, relayF, relayF.Body, "relay forwards sequentially", "the relay forwards each trace with a plain sequential Send in its own goroutine (order preserved)", fmt.Sprintf("%d Send sites, none inside go", n))
-	// (6) the trace channel of the tracer is unbuffered or not: order is preserved either way; subscription ack channel cap>=1
+	// (5b) every element of the transformer's result is forwarded: the Send sits in a loop over that result
+	allFwd := false
+	inspectNoLit(relayF.Body, func(m ast.Node) bool {
+		el, ok := elementLoop(lin, m)
+		if !ok {
+			return true
+		}
+		if exprMentions(el.Body, func(z ast.Node) bool {
+			call, ok := z.(*ast.CallExpr)
+			return ok && isTracerMethod(lin, call, "Send")
+		}) {
+			allFwd = true
+		}
+		return true
+	})
+	c.Check(allFwd, relayF, relayF.Body, "relay forwards every transformed trace", "the relay sends every trace its transformer returns (a loop over the result), none is dropped between the two tracers", fmt.Sprintf("Send inside a loop over the transformer's result: %v", allFwd))
+	// (6) termination closes every subscriber channel and leaves
+	rin := info(runF)
+	closesAll := false
+	for f := range runTree {
+		fin := info(f)
+		inspectNoLit(f.Body, func(m ast.Node) bool {
+			cc, ok := m.(*ast.CommClause)
+			if !ok || cc.Comm == nil {
+				return true
+			}
+			recvTerminate := exprMentionsAny(cc.Comm, func(z ast.Node) bool {
+				u, ok := z.(*ast.UnaryExpr)
+				return ok && u.Op == token.ARROW && fieldName(fin, u.X) == "tracer.terminate"
+			})
+			if !recvTerminate {
+				return true
+			}
+			for _, st := range cc.Body {
+				inspectNoLit(st, func(z ast.Node) bool {
+					el, ok := elementLoop(fin, z)
+					if !ok {
+						return true
+					}
+					if exprMentions(el.Body, func(y ast.Node) bool {
+						call, ok := y.(*ast.CallExpr)
+						return ok && isBuiltin(fin, call, "close")
+					}) {
+						closesAll = true
+					}
+					return true
+				})
+			}
+			return true
+		})
+	}
+	_ = rin
+	c.Check(closesAll, runF, runF.Body, "termination closes every subscriber", "when the tracer terminates it closes the channel of every subscriber (that is how watchers learn that nothing more will come)", fmt.Sprintf("close(...) inside a loop over the subscribers in the terminate clause: %v", closesAll))
+	// (7) a sender handle is counted when it is handed out
+	for _, f := range p.Funcs {
+		if f.Obj == nil || !isMethod(f.Obj, pathTracing, "RegisterSender") || f.Body == nil {
+			continue
+		}
+		fin := info(f)
+		adds := false
+		inspectNoLit(f.Body, func(m ast.Node) bool {
+			if call, ok := m.(*ast.CallExpr); ok && isSyncMethod(fin, call, "WaitGroup", "Add") {
+				adds = true
+			}
+			return true
+		})
+		c.Check(adds, f, f.Body, "RegisterSender counts the sender", "handing out a sender handle increments the wait group the tracer waits on before terminating (otherwise Done() drives it negative and panics, or the tracer terminates under a live sender)", fmt.Sprintf("WaitGroup.Add in RegisterSender: %v", adds))
+	}
 }
 
 func isParamRef(f *FuncInfo, op *ChanOp) bool {
